@@ -268,7 +268,10 @@ func selftestSensitivity(args []string) int {
 			}
 			return fmt.Sprintf("ERROR exit %d: %s", code, firstLines(string(out), 15))
 		}()
-		ok := (meta.Expect == "violation" && strings.HasPrefix(res, "VIOLATION")) || (meta.Expect == "clean" && res == "clean")
+		// "missed": the change genuinely breaks the property (its demonstration is confirmed) but lies outside what this
+		// machinery reaches (DESIGN 8.4); it is kept so that the miss stays visible, and being caught is fine too
+		ok := (meta.Expect == "violation" && strings.HasPrefix(res, "VIOLATION")) || (meta.Expect == "clean" && res == "clean") ||
+			(meta.Expect == "missed" && (res == "clean" || strings.HasPrefix(res, "VIOLATION")))
 		status := "ok  "
 		if !ok {
 			status = "FAIL"
